@@ -236,12 +236,19 @@ pub struct Policy {
     pub kind: PolicyKind,
     /// model std's futex RwLock: a queued writer blocks new readers
     pub writer_pref: bool,
+    /// also allow a context switch right after a lock was acquired, i.e. while the task is
+    /// inside its critical section (matters for code that uses non-blocking try_* acquisitions:
+    /// they can then observe the lock as busy)
+    #[serde(default)]
+    pub preempt_in_cs: bool,
 }
 
 #[derive(Clone, Copy, Debug, PartialEq)]
 enum Status {
     Start,
     Running,
+    /// runnable, preempted inside a critical section (needs no lock)
+    Yield,
     AtPoint(usize, Mode),
     Queued(usize, Mode),
     Done,
@@ -261,6 +268,10 @@ pub struct SchedProbes {
     pub writer_queued_behind_reader: u64,
     pub reader_blocked_by_queued_writer: u64,
     pub writer_queued_behind_writer: u64,
+    #[serde(default)]
+    pub try_acquisitions: u64,
+    #[serde(default)]
+    pub preemptions_inside_critical_section: u64,
 }
 
 #[derive(Clone, Debug, Serialize, Deserialize, PartialEq)]
@@ -294,6 +305,10 @@ struct St {
     grants: Vec<(u8, u8, u8)>,
     /// enabled tasks at every decision (Enumerate policy only)
     branching: Vec<Vec<u32>>,
+    /// per task: the blocking acquisition the model has granted and the real lock has not yet
+    /// confirmed (anything else reported through `acquired` is a successful try_* acquisition)
+    pending: Vec<Option<(usize, Mode)>>,
+    yield_rng: Rng,
 }
 
 pub struct Sched {
@@ -322,6 +337,7 @@ impl Sched {
                 change_at.push(rng.range(1, 40) as u64);
             }
         }
+        let yield_rng = rng.fork();
         Arc::new(Sched {
             m: Mutex::new(St {
                 status: vec![Status::Start; ntasks],
@@ -345,6 +361,8 @@ impl Sched {
                 events: Vec::new(),
                 grants: Vec::new(),
                 branching: Vec::new(),
+                pending: vec![None; ntasks],
+                yield_rng,
             }),
             cvs: (0..ntasks).map(|_| Condvar::new()).collect(),
             ctl: Condvar::new(),
@@ -398,6 +416,7 @@ impl Sched {
     }
 
     fn grant(st: &mut St, lock: usize, mode: Mode, tid: usize) {
+        st.pending[tid] = Some((lock, mode));
         let l = st.locks.entry(lock).or_default();
         match mode {
             Mode::Write => l.writer = Some(tid),
@@ -491,7 +510,7 @@ impl Sched {
             let mut cands = Vec::new();
             for (t, s) in st.status.iter().enumerate() {
                 match s {
-                    Status::Start | Status::AtPoint(..) => cands.push(t),
+                    Status::Start | Status::AtPoint(..) | Status::Yield => cands.push(t),
                     Status::Queued(l, m) => {
                         if Sched::grantable(st, *l, *m, t) {
                             cands.push(t)
@@ -517,7 +536,7 @@ impl Sched {
             };
             st.trace.push(c as u32);
             let run = match st.status[c] {
-                Status::Start => true,
+                Status::Start | Status::Yield => true,
                 Status::AtPoint(l, m) => {
                     if Sched::grantable(st, l, m, c) {
                         Sched::grant(st, l, m, c);
@@ -557,6 +576,7 @@ impl Sched {
                 if st.events.len() < 400 {
                     let e = match st.status[c] {
                         Status::Start => format!("t{c} starts"),
+                        Status::Yield => format!("t{c} resumes inside its critical section"),
                         Status::AtPoint(l, m) | Status::Queued(l, m) => {
                             format!("t{c} takes {}({})", mode_str(m), Sched::lname(st, l))
                         }
@@ -690,6 +710,45 @@ impl Sched {
         }
     }
 
+    /// The real lock was acquired. A blocking acquisition was granted by the model before; a
+    /// successful try_* acquisition is entered into the model here. Then, under
+    /// `preempt_in_cs`, the task may be preempted while it holds the lock.
+    fn acquired(&self, tid: usize, lock: usize, mode: Mode) {
+        let mut st = self.m.lock().unwrap();
+        if st.pending[tid] == Some((lock, mode)) {
+            st.pending[tid] = None;
+        } else {
+            let l = st.locks.entry(lock).or_default();
+            match mode {
+                Mode::Write => l.writer = Some(tid),
+                Mode::Read => l.readers.push(tid),
+            }
+            st.probes.try_acquisitions += 1;
+        }
+        if !st.policy.preempt_in_cs || st.aborted.is_some() || st.policy.kind == PolicyKind::Enumerate {
+            return;
+        }
+        if !st.yield_rng.chance(1, 3) {
+            return;
+        }
+        st.probes.preemptions_inside_critical_section += 1;
+        st.status[tid] = Status::Yield;
+        st.running = None;
+        self.schedule(&mut st);
+        loop {
+            if st.running == Some(tid) {
+                return;
+            }
+            if st.aborted.is_some() {
+                // keep going: the guard this task holds is released by normal unwinding at its
+                // next lock point
+                st.status[tid] = Status::Running;
+                return;
+            }
+            st = self.cvs[tid].wait(st).unwrap();
+        }
+    }
+
     fn real_disagrees(&self, tid: usize, lock: usize, mode: Mode) {
         let mut st = self.m.lock().unwrap();
         let n = Sched::lname(&st, lock);
@@ -739,6 +798,7 @@ impl LockObserver for TaskObs {
         if !model_ok {
             self.sched.real_disagrees(self.tid, lock, mode);
         }
+        self.sched.acquired(self.tid, lock, mode);
     }
     fn after_release(&self, lock: usize, mode: Mode) {
         self.sched.released(self.tid, lock, mode);
